@@ -1,6 +1,7 @@
 """C04 -- Failures are contained and reported to the supervisor exactly once."""
 import re
 from .model import *
+from .engine import AnchorLost
 from .facts import Site, op_place, Call
 from . import c05
 
@@ -146,31 +147,35 @@ def r5(run, db):
     m = model(db)
     cl = m.guard_cleanup()
     run.saw(len(cl.blocks), cl)
+    try:
+        armed_name, notify_name = guard_flags(db)
+    except AnchorLost:
+        armed_name, notify_name = None, None
     armed = None
     for site, sw in cl.switches():
-        if sw["dty"] == "bool":
+        if sw["dty"] == "bool" and armed_name:
             roots = cl.origins(sw["discr"])
-            if any(any(e.endswith(":armed") for e in r.get("proj", [])) for r in roots) and all(r["k"] in ("arg", "upvar") for r in roots):
+            if any(any(e.endswith(":" + armed_name) for e in r.get("proj", [])) for r in roots) and all(r["k"] in ("arg", "upvar") for r in roots):
                 armed = site
     run.check(armed is not None, "armed-test", "cleanup tests the `armed` field directly", "cleanup does not test `self.armed` directly (e.g. it swaps it first)", cl.where())
     if armed is None:
         return
     te = cl.edge_of(armed, "true")
-    eff = [c for c in cl.calls() if c.is_("ActorCell::set_status", "ActorCell::terminate", "ActorCell::notify_supervisor", "ActorCell::unlink")]
-    for c in eff:
-        run.check(te and cl.edge_dominates(te, c.site), "effect-on-armed:%s@%s" % (c.name.split("::")[-1], cl.value_consts(c.args[1])[0].split("::")[-1] if c.is_("ActorCell::set_status") and cl.value_consts(c.args[1]) else ""),
+    eff = [(o, c) for o, c, ch in inlined_calls(db, cl) if c.is_("ActorCell::set_status", "ActorCell::terminate", "ActorCell::notify_supervisor", "ActorCell::unlink")]
+    for o, c in eff:
+        run.check(te and cl.edge_dominates(te, o), "effect-on-armed:%s@%s" % (c.name.split("::")[-1], c.fn.value_consts(c.args[1])[0].split("::")[-1] if c.is_("ActorCell::set_status") and c.fn.value_consts(c.args[1]) else ""),
                   "%s only on the armed edge" % c.name.split("::")[-1], "%s can run when the guard is already disarmed (double cleanup)" % c.name, c.where())
     # writes to armed: assignments with lhs field armed, or &mut armed escaping to calls
-    stopped = [c for c, v in set_status_calls(cl) if v == "Stopped"]
+    stopped = [o for o, c, ch in inlined_calls(db, cl) if c.is_("ActorCell::set_status") and c.fn.value_consts(c.args[1]) and c.fn.value_consts(c.args[1])[0].endswith("::Stopped")]
     writes = []
     for site, s in cl.stmts():
-        if s["k"] == "assign" and any(e.endswith(":armed") for e in s["lhs"][1]):
+        if s["k"] == "assign" and any(e.endswith(":" + armed_name) for e in s["lhs"][1]):
             writes.append((site, "store", s))
-        if s["k"] == "assign" and s["rv"]["k"] == "ref" and s["rv"].get("mut") and any(e.endswith(":armed") for e in s["rv"]["p"][1]):
+        if s["k"] == "assign" and s["rv"]["k"] == "ref" and s["rv"].get("mut") and any(e.endswith(":" + armed_name) for e in s["rv"]["p"][1]):
             writes.append((site, "&mut", s))
     run.check(len(writes) >= 1, "armed-cleared", "cleanup disarms the guard", "cleanup never clears `armed`: Drop after finish would notify twice", cl.where())
     for site, kind, s in writes:
-        okw = bool(stopped) and cl.dominates(stopped[0].site, site)
+        okw = bool(stopped) and cl.dominates(stopped[0], site)
         run.check(okw, "armed-write-after-stopped:%s" % kind, "`armed` is written only after set_status(Stopped) (an unwinding cleanup is re-run by Drop and still releases waiters)",
                   "`armed` is written before the cleanup completed: a cleanup that unwinds part-way leaves the actor stuck in Stopping with waiters never released", cl.where(s.get("l")))
         if kind == "store":
@@ -182,7 +187,7 @@ def r5(run, db):
         if f.id == cl.id:
             continue
         for site, s in f.stmts():
-            if s["k"] == "assign" and any(e.endswith(":armed") for e in s["lhs"][1]) and g in " ".join(l["ty"] for l in f.locals):
+            if s["k"] == "assign" and any(e.endswith(":" + armed_name) for e in s["lhs"][1]) and g in " ".join(l["ty"] for l in f.locals):
                 run.fail("armed-foreign-write:%s" % f.id, "%s writes the guard's armed flag" % f.id, f.where(s.get("l")))
 
 
@@ -210,6 +215,7 @@ def opt_shape(fn, op):
 
 def r6(run, db):
     m = model(db)
+    armed_name, notify_name = guard_flags(db)
     for rt in m.runtimes():
         blk = m.spawn_block(rt)
         lp_root = db.root_of(m.loop_body(rt))
@@ -264,14 +270,14 @@ def r6(run, db):
         for c in dr.calls():
             if c.matches(r"bool>::then$|bool::then$|<impl bool>::then$"):
                 subj = dr.origins(c.args[0])
-                if any(any(e.endswith(":notify_on_cancel") for e in r.get("proj", [])) for r in subj):
+                if any(any(e.endswith(":" + notify_name) for e in r.get("proj", [])) for r in subj):
                     if any(r["k"] == "agg" and r["stmt"]["rv"].get("def") == f.id for r in dr.origins(c.args[1])):
                         okgate = True
         if f.id == dr.id:
             # inline form: aggregate dominated by true edge of a switch on notify_on_cancel
             for ssite, sw in dr.switches():
                 roots = dr.origins(sw["discr"])
-                if any(any(e.endswith(":notify_on_cancel") for e in r.get("proj", [])) for r in roots):
+                if any(any(e.endswith(":" + notify_name) for e in r.get("proj", [])) for r in roots):
                     te = dr.edge_of(ssite, "true")
                     okgate = okgate or (te and dr.edge_dominates(te, site))
         run.check(okgate, "drop|gated", "the cancellation event exists only when notify_on_cancel is set", "the cancellation event is not gated by notify_on_cancel (a failed start would notify)", dr.where())
@@ -279,13 +285,13 @@ def r6(run, db):
     g = m.guard_adt()
     for f in db.crate_fns("ractor"):
         for site, s in f.stmts():
-            if s["k"] == "assign" and any(e.endswith(":notify_on_cancel") for e in s["lhs"][1]):
+            if s["k"] == "assign" and any(e.endswith(":" + notify_name) for e in s["lhs"][1]):
                 v = f.value_consts(s["rv"]["op"]) if s["rv"]["k"] == "use" else []
                 run.check(f.id.endswith("::mark_running") and v == ["true"], "notify_on_cancel-writer:%s" % f.id, "%s sets notify_on_cancel = true" % f.id, "%s writes notify_on_cancel = %s" % (f.id, v), f.where(s.get("l")))
         for site, s in f.aggregates(adt=g):
             rv = s["rv"]
             vals = dict(zip(rv["fields"], [f.value_consts(o) for o in rv["ops"]]))
-            run.check(vals.get("notify_on_cancel") == ["false"] and vals.get("armed") == ["true"], "guard-init:%s" % f.id, "guard starts armed and silent (notify_on_cancel=false)", "guard initial flags %s" % vals, f.where(s.get("l")))
+            run.check(vals.get(notify_name) == ["false"] and vals.get(armed_name) == ["true"], "guard-init:%s" % f.id, "guard starts armed and silent (notify_on_cancel=false)", "guard initial flags %s" % vals, f.where(s.get("l")))
 
 
 def r7(run, db):
